@@ -52,7 +52,15 @@ var logOnly = map[string]bool{
 	"notify.sent": true, "notify.dropped": true,
 }
 
+// hook points inside one step of the specification (second layer): schedules derived from the specification's behaviours do not
+// stop there (schedSpec.Coarse)
+var innerLabel = map[string]bool{
+	"ad.sub": true, "job.sp.load": true, "job.mc.load": true, "jclose.checked": true, "disp.cas.load": true, "reap.expired": true,
+	"add.pre": true, "resp.stored": true, "bind.sub": true,
+}
+
 type gate struct {
+	coarse   bool
 	mu       sync.Mutex
 	gated    bool // false: free-running (M3): hooks only log the observable events
 	active   atomic.Bool
@@ -163,7 +171,7 @@ func (g *gate) hook(label string, args ...any) {
 		e["st"] = g.proj()
 	}
 	g.logEvent(e)
-	if logOnly[label] {
+	if logOnly[label] || (g.coarse && innerLabel[label]) {
 		g.mu.Unlock()
 		return
 	}
@@ -238,7 +246,7 @@ func (g *gate) point(label string, kv ...any) {
 		e["st"] = g.proj()
 	}
 	g.logEvent(e)
-	if !g.gated || p == nil {
+	if !g.gated || p == nil || (g.coarse && innerLabel[label]) {
 		g.mu.Unlock()
 		return
 	}
